@@ -173,6 +173,12 @@ Definition kc06_5 t files meta := k06_5 (tcrc t) (tdec t) (img_disk files meta).
 Definition kc05_4_wal (t : tabs) (files : list (Z * bytes)) (meta : metafile) : bool :=
   existsb (fun sf => (fst sf <? min_seq meta) && existsb is_data (file_records (tcrc t) (tdec t) (snd sf))) (mkfiles files).
 
+(** WalManager level, by the operations: the log was rotated (explicitly or because a file reached
+    max_log_size) — the class of C05-K4 as [k_rot] states it for a database; it also covers the
+    case where [truncate_old_logs] has already deleted the skipped files *)
+Definition kc05_4_ops (t : tabs) (cfg : wcfg) (ops : list wop) : bool :=
+  0 <? w_seq (wrun (tcrc t) (tenc t) cfg (wopen (tcrc t) empty_disk) ops).
+
 (** * (iv) snapshots *)
 Definition run_store (os : list op) : store * tm :=
   fold_left (fun st o => match op_effect (fst st) (snd st) o with (s1, t1, _, _) => (s1, t1) end) os (empty_store, tm0).
